@@ -32,6 +32,8 @@ func Main(args []string) int {
 		return runC19(cfg, rest)
 	case "C07", "C10":
 		return runGen(cfg, rest, prop)
+	case "TRANSPARENCY":
+		return runTransparency(cfg, rest)
 	case "GENDUMP":
 		return runGenDump(cfg, rest)
 	case "GENSTAT":
